@@ -4,8 +4,9 @@
     initial state under a step of EVERY thread, i.e. under every schedule, for any queues and endings.
     Tie to the code: real OS threads through the cfg(callbag_verif) hooks under the token-passing
     scheduler, compared event by event with this model on every run.
-    combine: proved in full.  merge: see the end of the file. *)
-From CB Require Import Threads ThreadSpec Inv_threads_combine.
+    combine and merge: proved over all schedules (Inv_threads_combine.v, Inv_threads_merge.v).
+    [at_most_one_err n fins] is the property's own quantifier ("at most one member failing"). *)
+From CB Require Import Threads ThreadSpec Inv_threads_combine Inv_threads_merge.
 
 Theorem C18_combine_no_panic (n : nat) (qs : nat -> list val) (fins : nat -> final) :
   1 <= n -> forall s, cb_reach n qs fins s ->
@@ -63,3 +64,56 @@ Theorem C18_combine_unfixed_refuted :
   In TvPanic (combine_check 2 refute_qs refute_fins (rev (cbs_tr refute_final))).
 Proof. exact combine_threads_unfixed_refuted. Qed.
 Print Assumptions C18_combine_unfixed_refuted.
+
+(** ** merge! *)
+
+Theorem C18_merge_greeted_once (n : nat) (qs : nat -> list val) (fins : nat -> final) :
+  1 <= n -> at_most_one_err n fins -> forall s, mg_reach n qs fins s ->
+  count is_begin_greet (mgs_tr s) <= 1 /\ before_greet_ok (rev (mgs_tr s)) = true.
+Proof. exact (@merge_threads_greet_once n qs fins). Qed.
+Print Assumptions C18_merge_greeted_once.
+
+(** every datum exactly once, each member's own order: what a member has delivered followed by what
+    is still in its queue is its original queue *)
+Theorem C18_merge_exactly_once (n : nat) (qs : nat -> list val) (fins : nat -> final) :
+  1 <= n -> at_most_one_err n fins -> forall s t, mg_reach n qs fins s ->
+  delivered_by t (rev (mgs_tr s)) ++ mg_q (mgs_th s t) = qs t.
+Proof. exact (@merge_threads_delivered n qs fins). Qed.
+Print Assumptions C18_merge_exactly_once.
+
+Theorem C18_merge_one_terminal (n : nat) (qs : nat -> list val) (fins : nat -> final) :
+  1 <= n -> at_most_one_err n fins -> forall s, mg_reach n qs fins s ->
+  count is_begin_term (mgs_tr s) <= 1.
+Proof. exact (@merge_threads_one_terminal n qs fins). Qed.
+Print Assumptions C18_merge_one_terminal.
+
+(** completion after every data delivery has returned; no data after a terminal message *)
+Theorem C18_merge_completion_after_data (n : nat) (qs : nat -> list val) (fins : nat -> final) :
+  1 <= n -> at_most_one_err n fins -> forall s, mg_reach n qs fins s ->
+  scan_term (fun _ => false) false (rev (mgs_tr s)) = [] /\
+  (mgs_endc s = n -> forall t, t < n ->
+     mg_pcv (mgs_th s t) = MgInTerm \/ mg_pcv (mgs_th s t) = MgFinished) /\
+  (forall t, scan_open (fun _ => false) (rev (mgs_tr s)) t = true <-> mg_pcv (mgs_th s t) = MgInData).
+Proof. exact (@merge_threads_completion_after_data n qs fins). Qed.
+Print Assumptions C18_merge_completion_after_data.
+
+Theorem C18_merge_no_panic (n : nat) (qs : nat -> list val) (fins : nat -> final) :
+  1 <= n -> at_most_one_err n fins -> forall s, mg_reach n qs fins s ->
+  existsb is_panic (mgs_tr s) = false.
+Proof. exact (@merge_threads_no_panic n qs fins). Qed.
+Print Assumptions C18_merge_no_panic.
+
+(** once every member thread has finished the whole C18 check accepts the trace *)
+Theorem C18_merge_final (n : nat) (qs : nat -> list val) (fins : nat -> final) :
+  1 <= n -> at_most_one_err n fins -> forall s, mg_reach n qs fins s ->
+  (forall t, t < n -> mg_finished s t = true) -> merge_check n qs fins (rev (mgs_tr s)) = [].
+Proof. exact (@merge_threads_final_n n qs fins). Qed.
+Print Assumptions C18_merge_final.
+
+(** what the driver runs *)
+Theorem C18_merge_driver_run n qs fins nth sch fuel :
+  1 <= n -> at_most_one_err n fins ->
+  let s := run_full (mg_step n) mg_finished nth sch fuel (mg_init n qs fins) in
+  (forall t, t < n -> mg_finished s t = true) -> merge_check n qs fins (rev (mgs_tr s)) = [].
+Proof. exact (@merge_driver_final n qs fins nth sch fuel). Qed.
+Print Assumptions C18_merge_driver_run.
